@@ -267,6 +267,41 @@ func c01Block(c *Ctx, r *Rng, cols []blockCol, rows, rev int, tag string) {
 	if !decodeTyped(res, targets, "reused typed targets") {
 		return
 	}
+	// ---- the same targets then receive a zero-row block of the same schema (header block) and the block again
+	if rows > 0 {
+		var emptyCols []blockCol
+		okEmpty := true
+		for _, bc := range cols {
+			ec, err := newColumn(bc.t)
+			if err != nil {
+				okEmpty = false
+				break
+			}
+			emptyCols = append(emptyCols, blockCol{name: bc.name, t: bc.t, cn: genCol(r, bc.t, 0, genOpts{}), col: ec})
+		}
+		if okEmpty {
+			var eb proto.Buffer
+			zblk := proto.Block{Columns: len(cols), Rows: 0}
+			if err := zblk.EncodeBlock(&eb, rev, inputOf(emptyCols)); err == nil {
+				rd := proto.NewReader(bytes.NewReader(eb.Buf))
+				var got proto.Block
+				var derr error
+				if p, msg := safely(func() { derr = got.DecodeBlock(rd, rev, res) }); p || derr != nil {
+					R.Violate(Violation{Kind: "oracle", Key: "zero-row-block-decode", What: fmt.Sprintf("zero-row block into used targets: panic=%q err=%v", msg, derr), Case: cs})
+					return
+				}
+				for i, tcol := range targets {
+					if tcol.Rows() != 0 {
+						R.Violate(Violation{Kind: "oracle", Key: "zero-row-block-keeps-rows", What: fmt.Sprintf("after decoding a zero-row block, target %d (%s) still reports %d rows of the previous block", i, cols[i].t.CH, tcol.Rows()), Case: cs})
+						return
+					}
+				}
+				if !decodeTyped(res, targets, "targets reused after a zero-row block") {
+					return
+				}
+			}
+		}
+	}
 	// ---- decode through automatic inference when every type is inferable
 	allInferable := true
 	for _, bc := range cols {
